@@ -98,7 +98,13 @@ func Load(dir string, goos string) (*Prog, error) {
 // CG returns the VTA call graph (seeded with CHA), built lazily.
 func (p *Prog) CG() *callgraph.Graph {
 	p.cgOnce.Do(func() {
-		p.cg = vta.CallGraph(p.AllFunctions(), cha.CallGraph(p.SSA))
+		// VTA seeded with CHA, then refined twice with its own result as the
+		// initial graph (each pass removes type flows that only existed through
+		// CHA's spurious interface edges)
+		g := vta.CallGraph(p.AllFunctions(), cha.CallGraph(p.SSA))
+		g = vta.CallGraph(p.AllFunctions(), g)
+		g = vta.CallGraph(p.AllFunctions(), g)
+		p.cg = g
 	})
 	return p.cg
 }
